@@ -429,8 +429,25 @@ def prelude_table(ctx, rid, only_panic_discharge=False, strict_root=True):
                    "the catch-all arm panics (`Unknown prelude type`) for a well-formed registry" % (n, n))
     if only_panic_discharge:
         return missing
+    from .core.norm import rewrite as _rw, _renumber_slots
+    sc = N.term(m["scrut"])
+
+    def for_key(t, k):
+        """an arm shared by several names that splices the matched name into its template (`format_ident!("{}", name)`): the template for name k"""
+        t = _rw(t, lambda n: ("lit", k) if n == sc else n[2][0] if n[0] == "call" and n[1] == "__private::IdentFragmentAdapter" and len(n[2]) == 1 else None)
+        if t[0] != "tpl":
+            return t
+        text, slots = t[2], list(t[3])
+        for i, sl in enumerate(slots):
+            if sl[0] == "call" and sl[1] == "format_ident" and len(sl[2]) == 1 and sl[2][0][0] == "fmt" \
+                    and all(p_[0] == "lit" or (p_[0] == "arg" and p_[2][0] == "lit" and isinstance(p_[2][1], str)) for p_ in sl[2][0][1]):
+                ident = "".join(p_[1] if p_[0] == "lit" else p_[2][1] for p_ in sl[2][0][1])
+                if re.fullmatch(r"[A-Za-z_]\w*", ident):
+                    text = " ".join(ident if tok == "#%d" % i else tok for tok in text.split(" "))
+        text, slots = _renumber_slots(text, slots)
+        return ("tpl", t[1], text, slots)
     for k, arm in sorted(keys.items()):
-        t = N.term(arm["body"])
+        t = for_key(N.term(arm["body"]), k)
         if t[0] != "tpl":
             ctx.bad(rid, "prelude/" + k, site(arm), "arm for `%s` is not a path template: %s" % (k, show(t)))
             continue
